@@ -141,7 +141,7 @@ theorem dcNext_wf {split : Nat} (hsp : 0 < split) {h h' : List ChunkIt} {c : Agg
       · rename_i hem
         have hne : (overlapLoop (heapChunks (hadvance h1 it) + 1) (hadvance h1 it) [] curr.maxt curr).2 ≠ [] := by
           intro he; apply hem; rw [he]; rfl
-        obtain ⟨out, hout, hwf⟩ := aggrOut_wf hsp _ curr hne (by
+        obtain ⟨out, hout, hwf, _, _⟩ := aggrOut_wf hsp _ curr hne (by
           intro c' hc'
           rcases List.mem_append.mp hc' with hc' | hc'
           · exact hr2 c' hc'
